@@ -13,6 +13,9 @@ transition / metastable, isotopes mapped to their element for rates only):
   isotope      isotope request served by the element's table (decoy table stored under the isotope symbol is ignored)
   wavelength   photon -> W conversion uses the wavelength of the REQUESTED species (element fallback only with the flag)
   missing_raise / missing_null   policy table for absent file / absent key / absent wavelength
+  hostile_interior  tables with hostile shapes along one axis (dip / spike / alternating / notch of 3-12 decades between
+               neighbouring knots, values next to the smallest normal double): >= 24 points per knot interval of that
+               axis, other arguments on and between knots, must be non-negative, not NaN, not raise (knots still judged)
   history      call-history independence: a random request sequence on ONE rate object (knots, interior, non-positive,
                out-of-range points repeated 3-4 times, right after in-range / the same / other out-of-range requests)
                gives, request by request, the bit-identical value or the same exception type as a freshly constructed
@@ -31,7 +34,9 @@ RULE = ("one case = one private repository written with repository.update_* + on
         "accessors: 13 rate accessors + wavelength; the '16 methods' of the class include __init__ and data_path) "
         "evaluated under all 8 combinations of permit_extrapolation / missing_rates_return_null / "
         "wavelength_element_fallback; random positive tables (log-random-walk, <= 12 decades, 2..12 knots per axis, "
-        "knot spacing >= 0.1 decade) or single-point axes; requested species element or isotope (with decoy tables "
+        "knot spacing >= 0.1 decade), hostile-shape tables (dip / spike / alternating / notch of 3-12 decades between "
+        "neighbouring knots along one axis, or values just above the smallest normal double; every accessor, every axis) "
+        "sampled densely between knots, or single-point axes; requested species element or isotope (with decoy tables "
         "stored under the isotope symbol / other charge / other transition / other metastable); scenarios present / "
         "file missing / key missing / wavelength missing; arguments at every knot, at random interior points, "
         "non-positive, and up to one decade outside each axis; plus, for both permit_extrapolation values, a 25-60 "
@@ -57,7 +62,7 @@ QUICK = dict(cases=700, workers=2, timecap=45)
 THOROUGH = dict(cases=24000, workers=16, timecap=600)
 REQUIRED = {"knot": 60000, "nonneg": 60000, "nonpositive": 8000, "range_raise": 6000, "range_finite": 6000,
             "isotope": 600, "wavelength": 500, "missing_raise": 400, "missing_null": 1200, "single_point": 300,
-            "history": 8000}
+            "history": 8000, "hostile_interior": 20000}
 
 HC_NM = 6.62607015e-34 * 299792458.0 * 1e9      # J.nm   (exact SI 2019 values)
 KNOT_RTOL = 1e-9
@@ -175,7 +180,89 @@ def _sizes(rng, axes, single, tier):
     return n
 
 
-def _gen_table(rng, acc, single, tier, scale=1.0):
+HOSTILE_PATTERNS = ["dip", "spike", "alternating", "notch", "tiny"]
+LINEAR_AXES = {"ti", "ni", "z", "b"}        # beam-CX factors interpolated in linear space
+
+
+def _hostile_profile(rng, n, pattern, depth):
+    """log10 offsets along the hostile axis (n >= 4 knots): neighbouring knots differ by `depth` (3..12) decades"""
+    p = np.zeros(n)
+    if pattern == "dip":                      # two adjacent interior knots far below a plateau
+        k = int(rng.integers(1, n - 2))
+        p[k] = p[k + 1] = -depth
+    elif pattern == "spike":                  # one (sometimes two) interior knots far above a plateau
+        k = int(rng.integers(1, n - 1))
+        p[k] = depth
+        if k + 1 < n - 1 and rng.random() < 0.3:
+            p[k + 1] = depth
+    elif pattern == "alternating":            # high / low / high / low ...
+        p[int(rng.integers(2))::2] = -depth
+    elif pattern == "notch":                  # plateau with a single deep notch
+        p[int(rng.integers(1, n - 1))] = -depth
+    return p
+
+
+def _mild(rng, x):
+    return _walk(rng, x, 0.4) + rng.uniform(-0.05, 0.05, size=len(x))
+
+
+def _gen_hostile_table(rng, acc, hostile, scale):
+    """positive table with a hostile shape along ONE axis (the other axes vary mildly); pattern 'tiny' is a mild table
+    whose smallest value, after the documented conversion, lies just above the smallest positive normal double"""
+    axes = AXES[acc]
+    hax, pattern, depth = hostile["axis"], hostile["pattern"], float(hostile["depth"])
+    n = {a: int(rng.integers(2, 5)) for a in axes}
+    n[hax] = int(rng.integers(4, 9))
+    grid = {}
+    for a in axes:
+        g = _axis(rng, a, n[a])
+        if a == hax and a not in LINEAR_AXES:     # knots of the hostile axis at least 0.3 decade apart
+            lg = np.log10(g)
+            lg = lg[0] + np.cumsum(np.concatenate([[0.0], np.maximum(np.diff(lg), 0.3)]))
+            g = [float(v) for v in 10 ** lg]
+        grid[a] = g
+    prof = {a: (_hostile_profile(rng, n[a], pattern, depth) if (a == hax and pattern != "tiny") else np.zeros(n[a])) + _mild(rng, grid[a])
+            for a in axes}
+    tiny = pattern == "tiny"
+    floor_plain = -float(rng.uniform(300.0, 305.5))    # log10 of the smallest value for coefficients stored in final units
+    floor_photon = -float(rng.uniform(280.0, 284.0))   # photon coefficients are multiplied by hc/lambda ~ 1e-19..7e-18 J
+    d = dict(grid)
+    if acc in FAM_2D or acc == "thermal_cx_pec":
+        base = rng.uniform(-38, -28) if "power" in acc else rng.uniform(-20, -10)
+        lg = np.zeros([n[a] for a in axes])
+        for i, a in enumerate(axes):
+            sh = [1] * len(axes)
+            sh[i] = n[a]
+            lg = lg + prof[a].reshape(sh)
+        lg = lg + rng.uniform(-0.03, 0.03, size=lg.shape)
+        lg = lg + (base if not tiny else (floor_photon if acc in PEC else floor_plain) - lg.min())
+        d["rate"] = (10 ** lg * scale).tolist()
+        return d
+    if acc in FAM_BEAM:
+        base = rng.uniform(-1.5, -0.1) if acc == "beam_population_rate" else rng.uniform(-16, -11)
+        lsen = prof["e"][:, None] + prof["n"][None, :] + rng.uniform(-0.03, 0.03, size=(n["e"], n["n"]))
+        lst = prof["t"] + rng.uniform(-0.3, 0.3)
+        lsen = lsen + (base if not tiny else (floor_photon if acc in PEC else floor_plain) - lsen.min() - min(lst.min(), 0.0))
+        sref = float(10 ** (base + rng.uniform(-0.5, 0.5)))
+        d.update(sen=(10 ** lsen * scale).tolist(), st=[float(v) for v in sref * 10 ** lst], sref=sref,
+                 eref=float(grid["e"][0]), nref=float(grid["n"][0]), tref=float(grid["t"][0]))
+        return d
+    if acc == "beam_cx_pec":
+        base = rng.uniform(-16, -12)
+        qref = float(10 ** (base + rng.uniform(-0.5, 0.5)))
+        fac = {a: prof[a] + rng.uniform(-0.3, 0.3) for a in ("ti", "ni", "z", "b")}
+        lqeb = prof["eb"] + (base if not tiny else floor_photon - prof["eb"].min() - sum(min(f.min(), 0.0) for f in fac.values()))
+        d["qref"] = qref
+        d["qeb"] = [float(v) for v in 10 ** lqeb * scale]
+        for a, q in (("ti", "qti"), ("ni", "qni"), ("z", "qz"), ("b", "qb")):
+            d[q] = [float(v) for v in qref * 10 ** fac[a]]
+        return d
+    raise ValueError(acc)
+
+
+def _gen_table(rng, acc, single, tier, scale=1.0, hostile=None):
+    if hostile is not None:
+        return _gen_hostile_table(rng, acc, hostile, scale)
     axes = AXES[acc]
     n = _sizes(rng, axes, single, tier)
     grid = {ax: _axis(rng, ax, k) for ax, k in zip(axes, n)}
@@ -302,12 +389,13 @@ def _element_level(acc, key):
     return k
 
 
-def make_case(rng, tier, accessor=None, scenario=None, iso_mode=None, single=None):
+def make_case(rng, tier, accessor=None, scenario=None, iso_mode=None, single=None, hostile=None):
     acc = accessor or ACCESSORS[int(rng.integers(len(ACCESSORS)))]
     if scenario is None:
         r = rng.random()
-        scenario = "present" if r < 0.5 else "single" if r < 0.65 else "missing" if r < 0.88 else "nowavelength"
-    if acc == "wavelength" and scenario in ("single", "nowavelength"):
+        scenario = ("present" if r < 0.40 else "hostile" if r < 0.54 else "single" if r < 0.67 else
+                    "missing" if r < 0.89 else "nowavelength")
+    if acc == "wavelength" and scenario in ("single", "nowavelength", "hostile"):
         scenario = "present" if rng.random() < 0.6 else "missing"
     if scenario == "nowavelength" and acc not in PEC:
         scenario = "present"
@@ -355,12 +443,22 @@ def make_case(rng, tier, accessor=None, scenario=None, iso_mode=None, single=Non
         nmeta = int(rng.integers(1, 4))
         metas = sorted(int(m) for m in rng.choice(4, size=nmeta, replace=False))
 
-    def new_tables(scale):
-        if metas is None:
-            return _gen_table(rng, acc, single, tier, scale)
-        return {str(m): _gen_table(rng, acc, single, tier, scale) for m in metas}
+    if scenario == "hostile":
+        if hostile is None:
+            hostile = dict(axis=axes[int(rng.integers(len(axes)))], pattern=HOSTILE_PATTERNS[int(rng.integers(len(HOSTILE_PATTERNS)))])
+        hostile = dict(hostile)
+        hostile.setdefault("depth", float(rng.uniform(3.0, 11.5)))
+        hostile["dense"] = 24
+        hostile["others"] = [dict(mode="knots", at=[float(v) for v in rng.uniform(0, 1, size=len(axes))]),
+                             dict(mode="between", at=[float(v) for v in rng.uniform(0.05, 0.95, size=len(axes))])]
+        case["hostile"] = hostile
 
-    if scenario in ("present", "single", "nowavelength"):
+    def new_tables(scale, hz=None):
+        if metas is None:
+            return _gen_table(rng, acc, single, tier, scale, hz)
+        return {str(m): _gen_table(rng, acc, single, tier, scale, hz) for m in metas}
+
+    if scenario in ("present", "single", "nowavelength", "hostile"):
         # decoys first (so a decoy that lands on the same file never overwrites the real table)
         decoys = []
         for how in ("isotope-only", "charge", "transition", "metastable", "species"):
@@ -368,7 +466,7 @@ def make_case(rng, tier, accessor=None, scenario=None, iso_mode=None, single=Non
                 k2 = _perturb(rng, acc, key if how == "isotope-only" else ek, how)
                 if k2 is not None:
                     decoys.append(dict(key=k2, table=new_tables(float(rng.uniform(2.5, 40))), role="decoy:" + how))
-        case["stores"] = decoys + [dict(key=ek, table=new_tables(1.0), role="main")]
+        case["stores"] = decoys + [dict(key=ek, table=new_tables(1.0, case.get("hostile")), role="main")]
     else:
         how = ["empty", "charge", "transition", "metastable", "species", "isotope-only"][int(rng.integers(6))]
         k2 = None if how == "empty" else _perturb(rng, acc, key if how == "isotope-only" else ek, how)
@@ -497,6 +595,18 @@ def fixed_cases(tier):
             out.append(make_case(rng, tier, acc, "nowavelength", "none"))
             out.append(make_case(rng, tier, acc, "nowavelength", "one"))
             out.append(make_case(rng, tier, acc, "nowavelength", "one"))
+    rng = np.random.default_rng(50505)
+    shapes = HOSTILE_PATTERNS[:4]
+    k = 0
+    for acc in ACCESSORS:
+        if acc == "wavelength":
+            continue
+        for ax in AXES[acc]:
+            pats = shapes if ax in LINEAR_AXES else [shapes[k % 4], shapes[(k + 2) % 4]]
+            k += 1
+            for pat in pats:
+                out.append(make_case(rng, tier, acc, "hostile", ["none", "one"][k % 2], hostile=dict(axis=ax, pattern=pat)))
+        out.append(make_case(rng, tier, acc, "hostile", "none", hostile=dict(axis=AXES[acc][k % len(AXES[acc])], pattern="tiny")))
     from vf.core import jsonable
     return [jsonable(c) for c in out]
 
@@ -607,7 +717,7 @@ def _knot_points(acc, t, case):
         pts = np.stack([m.ravel() for m in mesh], axis=1)
         sen = np.asarray(t["sen"], dtype=float)
         st = np.asarray(t["st"], dtype=float)
-        want = sen[:, :, None] * st[None, None, :] / float(t["sref"])
+        want = sen[:, :, None] * (st / float(t["sref"]))[None, None, :]      # sen * (st / sref): no intermediate underflow
         return pts, want.ravel()
     # beam cx: sweep every knot of every axis with the others at anchor knots, plus random combinations
     qs = [np.asarray(t[q], dtype=float) for q in ("qeb", "qti", "qni", "qz", "qb")]
@@ -622,10 +732,27 @@ def _knot_points(acc, t, case):
         idx.append([min(int(a * len(x)), len(x) - 1) for a, x in zip(c, g)])
     idx = np.array(idx)
     pts = np.stack([g[i][idx[:, i]] for i in range(5)], axis=1)
-    want = np.ones(len(idx))
-    for i in range(5):
-        want = want * qs[i][idx[:, i]]
-    return pts, want / float(t["qref"]) ** 4
+    want = qs[0][idx[:, 0]].copy()
+    for i in range(1, 5):
+        want = want * (qs[i][idx[:, i]] / float(t["qref"]))               # qeb * prod(q_k / qref): no intermediate underflow
+    return pts, want
+
+
+def _cx_knot_extra_rtol(t, pts):
+    """qti, qni, qz, qb are cubic-interpolated in LINEAR space: evaluating the cell polynomial at a knot in double precision
+    carries an absolute error of a few eps x the largest stencil value, i.e. a RELATIVE error eps x (largest neighbour /
+    knot value) on a knot next to a many-decade spike (observed up to ~12 eps x neighbour over 25 000 hostile tables).  Allowance: 512 eps x
+    max(|q| within +-2 knots) / |q(knot)| per linear factor (0 on smooth tables to within 1e-13)."""
+    extra = np.zeros(len(pts))
+    for col, (a, q) in enumerate((("eb", None), ("ti", "qti"), ("ni", "qni"), ("z", "qz"), ("b", "qb"))):
+        if q is None:
+            continue
+        x = np.asarray(t[a], dtype=float)
+        f = np.abs(np.asarray(t[q], dtype=float))
+        k = np.array([int(np.argmin(np.abs(x - v))) for v in pts[:, col]])
+        nb = np.array([f[max(0, j - 2):j + 3].max() for j in k])
+        extra += 512 * 2.220446049250313e-16 * nb / f[k]
+    return extra
 
 
 def _frac_point(acc, t, frac):
@@ -695,6 +822,8 @@ def run_case(case, ctx):
     ctx.cls("species:" + ("element" if n_iso == 0 else "isotope" if n_iso == len(sp_fields) else "mixed"))
     if case.get("single_axes"):
         ctx.cls("single-point-axis:%d-of-%d" % (len(case["single_axes"]), len(AXES[acc])))
+    if case.get("hostile"):
+        ctx.cls("hostile:%s:%s" % (case["hostile"]["pattern"], "linear-axis" if case["hostile"]["axis"] in LINEAR_AXES else "log-axis"))
 
     base = getattr(ctx, "home", None)
     path = tempfile.mkdtemp(prefix="c07repo_", dir=base if base and os.path.isdir(base) else None)
@@ -929,7 +1058,8 @@ def _judge(case, ctx, adas, acc, req, entry, wl_model, pe, null, fb):
             continue
         key = "knot-value:%s" % acc
         what = "%s does not reproduce the stored table value x documented conversion at a grid point" % acc
-        ok_main = np.all(np.abs(got - want) <= KNOT_RTOL * np.abs(want))
+        katol = (_cx_knot_extra_rtol(t, pts) * np.abs(want)) if acc == "beam_cx_pec" else 0.0
+        ok_main = np.all(np.abs(got - want) <= KNOT_RTOL * np.abs(want) + katol)
         if not ok_main:
             # diagnose the mechanism for a finer key (never changes the verdict)
             def close_to(w):
@@ -953,7 +1083,7 @@ def _judge(case, ctx, adas, acc, req, entry, wl_model, pe, null, fb):
                     except Exception:  # noqa
                         pass
         if ok_main or key.startswith("knot-value:"):
-            ctx.close(got, want, key, what, rtol=KNOT_RTOL, monitor="knot", flags=flags, wl_mode=case.get("wl_mode"))
+            ctx.close(got, want, key, what, rtol=KNOT_RTOL, atol=katol, monitor="knot", flags=flags, wl_mode=case.get("wl_mode"))
         else:   # diagnosed mechanism: report under its own key, keep the calibration margin of the plain comparison clean
             ib = int(np.argmax(np.abs(got - want) / np.abs(want)))
             ctx.mon("knot", len(got))
@@ -1022,16 +1152,73 @@ def _judge(case, ctx, adas, acc, req, entry, wl_model, pe, null, fb):
                     ctx.check(False, "range:%s:extrapolation-raises:%s" % (acc, ARGNAMES[ax]),
                               "%s raised %s for %s within one decade outside the range with permit_extrapolation=True: %s" % (
                                   acc, type(oo.exc).__name__, ARGNAMES[ax], str(oo.exc)[:160]), monitor="range_finite", flags=flags, point=p)
+                elif case.get("hostile") and oo.value == math.inf:
+                    # quadratic / linear continuation of a 3-12 decade step overflows legitimately (ASSUMPTIONS)
+                    ctx.skip("hostile table: permitted extrapolation overflowed to +inf (finiteness judged on mild tables only)")
                 else:
                     ctx.check(math.isfinite(oo.value) and oo.value >= 0, "range:%s:extrapolation-non-finite:%s" % (acc, ARGNAMES[ax]),
                               "%s returned %r for %s within one decade outside the range with permit_extrapolation=True" % (
                                   acc, oo.value, ARGNAMES[ax]), monitor="range_finite", flags=flags, point=p, axis_range=[min(x), max(x)])
 
 
-    # ---------------- call history: outcomes must not depend on what was evaluated before
+    # ---------------- hostile shapes: dense sampling of every knot interval of the hostile axis
     h = case.get("history")
-    if h and bool(h["null"]) == bool(null) and bool(h["fb"]) == bool(fb):
+    selected = bool(h) and bool(h["null"]) == bool(null) and bool(h["fb"]) == bool(fb)
+    if case.get("hostile") and selected:
+        for rate, t in pairs:
+            _judge_dense(case, ctx, acc, rate, t, flags)
+
+    # ---------------- call history: outcomes must not depend on what was evaluated before
+    if selected:
         _judge_history(case, ctx, adas, acc, req, table, flags)
+
+
+def _judge_dense(case, ctx, acc, rate, t, flags):
+    """non-negativity between the knots of a table with a hostile shape (cubic under/overshoot): `dense` points per knot
+    interval of the hostile axis, once with the other arguments on knots and once between knots.  +inf is not a
+    violation inside the range (the statement demands finiteness only for permitted extrapolation); NaN, a negative
+    value or an exception is."""
+    hz = case["hostile"]
+    axes = AXES[acc]
+    ax = hz["axis"]
+    i = axes.index(ax)
+    x = [float(v) for v in t[ax]]
+    dense = int(hz["dense"])
+    for oth in hz["others"]:
+        if oth["mode"] == "knots":
+            base = [float(t[a][min(int(u * len(t[a])), len(t[a]) - 1)]) for a, u in zip(axes, oth["at"])]
+        else:
+            base = _frac_point(acc, t, oth["at"])
+        for k in range(len(x) - 1):
+            for j in range(dense):
+                f = (j + 0.5) / dense
+                if ax in LINEAR_AXES:
+                    v = x[k] + f * (x[k + 1] - x[k])
+                else:
+                    v = 10 ** (math.log10(x[k]) + f * (math.log10(x[k + 1]) - math.log10(x[k])))
+                if not (x[k] < v < x[k + 1]):
+                    continue
+                p = list(base)
+                p[i] = float(v)
+                oo = _call(rate, *p)
+                ctx.mon("hostile_interior")
+                detail = dict(point=p, interval=[x[k], x[k + 1]], others=oth["mode"], pattern=hz["pattern"], depth=hz.get("depth"), flags=flags)
+                if oo.exc is not None:
+                    ctx.viol("nonneg:%s:raises-between-knots:%s" % (acc, ax), "%s raised %s strictly inside the tabulated range (%s table): %s" % (
+                        acc, type(oo.exc).__name__, hz["pattern"], str(oo.exc)[:160]), **detail)
+                    return
+                if oo.value != oo.value:
+                    ctx.viol("nonneg:%s:nan-between-knots:%s" % (acc, ax), "%s returned NaN between two knots of axis %s of an all-positive %s table" % (
+                        acc, ax, hz["pattern"]), **detail)
+                    return
+                if oo.value < 0:
+                    ctx.viol("nonneg:%s:negative-between-knots:%s" % (acc, ax),
+                             "%s returned the negative value %r between two knots of axis %s of an all-positive %s table" % (
+                                 acc, oo.value, ax, hz["pattern"]), **detail)
+                    return
+                if oo.value == math.inf:
+                    ctx.skip("hostile table: +inf between knots (finiteness is not demanded inside the range)")
+    ctx.nontrivial()
 
 
 def _hist_args(acc, t, r):
